@@ -23,6 +23,7 @@ func vpStrictOracle(at, validUntil, nowMs uint64) bool {
 }
 
 // vp:check C12 both timeout=900
+// vp:check C06 both timeout=900
 // vp_C12_validity: WasValidAt over the full 64-bit range of timestamps, strict and lenient rule.
 // Timestamps are expressed as offsets from the clock reading so that a counterexample replays under the real clock.
 func vp_C12_validity() {
